@@ -11,7 +11,7 @@ from mc.harness import kind, fail, judge, replay  # noqa: F401
 
 PROPERTY = "C13"
 RULE = ("series on G(8,k), k=4..5/6 (y in V^k for k<=4, spanning set beyond, affine data) x 4 methods x every sorted "
-        "new grid of <=2/4 points of the half-integer lattice from below to beyond the range, plus the original "
+        "new grid of <=2/3 points of the half-integer lattice from below to beyond the range, plus the original "
         "abscissae; Weaver.interpolate(n) for n=2..12 and explicit grids (list/array) sharing both, one or no end point. "
         "Signature = (method, k, digest of values); non-trivial = some new point is not a sample")
 ASSUMPTIONS = ["'linear' is only claimed inside the data range (numpy clamps outside); affine reproduction is judged inside the range",
@@ -23,14 +23,20 @@ METHODS = ["linear", "constant", "cubic", "spline"]
 
 def bounds(tier, seed):
     q = tier == "quick"
-    return {"k": "4..5" if q else "4..6", "new_grid_points": "<=2" if q else "<=4", "weaver_n": "2..12"}
+    return {"k": "4..5" if q else "4..6", "new_grid_points": "<=2" if q else "<=3 (spanning values), <=2 (all of V^4)", "weaver_n": "2..12"}
 
 
-def _interp(method, x, y, new_x):
+def _interp(method, x, y, new_x, grid_type="float-array"):
+    """grid_type: how the caller writes the new grid - float array, integer array, list of ints
+    (the latter two only when every point is integral)"""
     from traffic_weaver.process import interpolate
+    if grid_type != "float-array" and all(float(v) == int(v) for v in new_x):
+        g = np.array([int(v) for v in new_x], dtype=np.int64) if grid_type == "int-array" else [int(v) for v in new_x]
+    else:
+        g = np.array(new_x, dtype=float)
     with warnings.catch_warnings():
         warnings.simplefilter("ignore")
-        return interpolate(np.array(x, dtype=float), np.array(y, dtype=float), np.array(new_x, dtype=float), method=method)
+        return interpolate(np.array(x, dtype=float), np.array(y, dtype=float), g, method=method)
 
 
 @kind("interp")
@@ -38,7 +44,7 @@ def check_interp(case):
     x, y, new_x, method = case["x"], case["y"], case["new_x"], case["method"]
     key = {"method": method}
     try:
-        got = _interp(method, x, y, new_x)
+        got = _interp(method, x, y, new_x, case.get("grid_type", "float-array"))
     except Exception as e:  # noqa
         return [fail("raised", {"exception": repr(e)}, dict(key, exc=type(e).__name__))], None
     if got is None or len(got) != len(new_x):
@@ -135,26 +141,27 @@ def harnesses(tier, seed):
     quick = tier == "quick"
     grids = [g for k in ((4, 5) if quick else (4, 5, 6)) for g in A.grids(8, k)]
     lat = [float(v) for v in A.half_lattice(-1, 9)]
-    maxpts = 2 if quick else 4
+    maxpts = 2 if quick else 3
     newgrids = [list(t) for r in range(1, maxpts + 1) for t in itertools.combinations(lat, r)]
+    newgrids2 = [list(t) for r in range(1, 3) for t in itertools.combinations(lat, r)]
 
     def yvecs(k):
-        if k <= 4:
-            return [list(v) for v in itertools.product(A.V, repeat=k)] if not quick else [list(v) for v in A.spanning_values(k)] + [[0, 1, 1, 5][:k], [2, 0, 5, 1][:k]]
-        return [list(v) for v in A.spanning_values(k)]
+        return [list(v) for v in A.spanning_values(k)] + ([[0, 1, 1, 5][:k], [2, 0, 5, 1][:k]] if k <= 4 else [])
 
     def body(ctx):
         g = ctx.choose(grids, "grid")
         method = ctx.choose(METHODS, "method")
         x = [float(v) for v in g]
-        ys = [(y, None) for y in yvecs(len(x))]
+        ys = [(y, None) for y in yvecs(len(x))] + [([v + 0.25 for v in yvecs(len(x))[1]], None), ([0.5 * v for v in yvecs(len(x))[-1]], None)]
         ys += [([a * v + b for v in x], (a, b)) for (a, b) in ((2.0, -1.0), (-0.5, 3.0), (0.0, 4.0))]
         yi = ctx.choose(len(ys), "y")
         y, aff = ys[yi]
-        judge(ctx, check_interp, {"x": x, "y": y, "new_x": x, "method": method, "affine": aff}, bulk=True, nontrivial=False)
-        for ng in newgrids:
-            judge(ctx, check_interp, {"x": x, "y": y, "new_x": ng, "method": method, "affine": aff}, bulk=True,
-                  nontrivial=True)
+        for gt in ("float-array", "int-array", "int-list"):
+            judge(ctx, check_interp, {"x": x, "y": y, "new_x": x, "method": method, "affine": aff, "grid_type": gt}, bulk=True,
+                  nontrivial=False)
+        for gi, ng in enumerate(newgrids):
+            judge(ctx, check_interp, {"x": x, "y": y, "new_x": ng, "method": method, "affine": aff,
+                                      "grid_type": ("float-array", "int-array", "int-list")[gi % 3]}, bulk=True, nontrivial=True)
         if len(g) == 4 and yi == 1 and method == "constant":
             ctx.sample({"x": x, "y": y, "method": method, "new_grids": "all sorted tuples of <=%d half-lattice points" % maxpts})
 
@@ -173,4 +180,17 @@ def harnesses(tier, seed):
                     judge(ctx, check_weaver_interp, {"x": x, "y": y, "method": method, "grid": grid, "grid_as_list": as_list},
                           calls=2, bulk=True)
 
-    return [{"name": "function", "body": body}, {"name": "weaver", "body": weaver_body}]
+    def full_values_body(ctx):
+        # thorough: the whole value lattice V^4 on every 4-point grid, new grids of <= 2 points
+        g = ctx.choose([g for g in grids if len(g) == 4], "grid")
+        method = ctx.choose(METHODS, "method")
+        x = [float(v) for v in g]
+        for y in itertools.product(A.V, repeat=4):
+            for gi, ng in enumerate(newgrids2):
+                judge(ctx, check_interp, {"x": x, "y": list(y), "new_x": ng, "method": method, "affine": None,
+                                          "grid_type": ("float-array", "int-array", "int-list")[gi % 3]}, bulk=True)
+
+    hs = [{"name": "function", "body": body}, {"name": "weaver", "body": weaver_body}]
+    if not quick:
+        hs.append({"name": "function-full-value-lattice", "body": full_values_body})
+    return hs
